@@ -406,3 +406,39 @@ def transform_methods(cx, cls):
         o.transform(S)
         for k in range(3):
             cx.prove_eq("conjugated[%d]" % k, o._data[:, :, k], conj2(D[:, :, k]), tol=1e-7)
+
+
+@harness("C04", "protected_inside_context",
+         quick=[dict(N=2)], thorough=[dict(N=2), dict(N=3)],
+         functions=FUNCS + ["quantarhei/core/managers.py:BasisManaged.protect_basis",
+                            "quantarhei/core/managers.py:BasisManaged.unprotect_basis"],
+         bound="N=2 (thorough 3): an operator is read inside eigenbasis_of(H), protected there (protect_basis: keep "
+               "the numbers), the context is left, the protection lifted: the operator keeps the exciton-basis "
+               "numbers but carries the label of the basis that is current again, can be read outside, is transformed "
+               "and restored by a further context like any other object, and the manager is restored",
+         out="")
+def protected_inside_context(cx, N):
+    import quantarhei as qr
+    m, objs, (H, w, S) = setup(cx, N, with_tensor=False)
+    ham, A = objs["H"][0], objs["A"][0]
+    A0 = objs["A"][1]
+    st0 = manager_state(m)
+    with qr.eigenbasis_of(ham):
+        inside = numpy.array(A.data).copy()
+        cx.prove_eq("inside/A_rep", inside, rep([S], A0), tol=1e-7)
+        A.protect_basis()
+    A.unprotect_basis()
+    cx.prove("after/label_is_current_basis", A.get_current_basis() == m.get_current_basis() == 0)
+    try:
+        outside = numpy.array(A.data).copy()
+    except Exception as e:      # noqa: BLE001
+        cx.fail("after/readable", "%s: %s" % (type(e).__name__, str(e)[:100]))
+        return
+    cx.prove_eq("after/protected_numbers_kept", outside, inside, tol=1e-7)
+    st1 = manager_state(m)
+    cx.prove("after/manager_restored", st1[0] == st0[0] == [0] and st1[1] == st0[1] and st1[3] is False)
+    # a further context treats it like any other site-basis object holding these numbers
+    with qr.eigenbasis_of(ham):
+        again = numpy.array(A.data).copy()
+        cx.prove_eq("again/transformed", again, rep([S], inside), tol=1e-7)
+    cx.prove_eq("again/restored", A._data, inside, tol=1e-7)
